@@ -167,7 +167,7 @@ def check_case(rec: Recorder, dns_: ScriptedDNS, records, domain, loop, wit_extr
             continue
         for kind, name, rdtype, search in dns_.queries:  # (a repeated identical query is a retry, not a wrong question)
             if kind != api:
-                rec.violation(f"{api}-wrong-resolver", f"{api} lookup used the {kind} resolver", dict(wit, api=api))
+                rec.count("lookup_through_other_resolver_flavour")  # (e.g. the async lookup running the blocking one on a thread: the property does not say how)
             if not same_dns_name(name, want_name) or rdtype.upper() != "SRV":
                 rec.violation(f"{api}-query-name", f"queried ({name!r}, {rdtype}) expected ({want_name!r}, SRV)", dict(wit, api=api))
             if not domain and not search:
